@@ -57,6 +57,7 @@ def strategy(tier):
         st.fixed_dictionaries({"op": st.just("delete"), "k": st.integers(0, 9)}),
         st.fixed_dictionaries({"op": st.just("resize"), "k": st.integers(0, 9), "size": st.sampled_from([0, 1, 777, 16384, 16385, 33000])}),
         st.fixed_dictionaries({"op": st.just("rewrite"), "k": st.integers(0, 9), "seed": st.integers(100, 199)}),
+        st.fixed_dictionaries({"op": st.just("restore"), "k": st.integers(0, 9)}),
     )
     tfop = st.one_of(
         st.fixed_dictionaries({"op": st.just("create"), "ver": st.sampled_from(["1", "2", "3"]), "route": st.sampled_from(["lib", "cli"]),
@@ -137,6 +138,7 @@ def run_case(case):
         os.makedirs(mdir)
         os.makedirs(tmp)
         files = []
+        origin = {}
 
         def write(name, size, seed):
             p = os.path.join(pay, name)
@@ -145,6 +147,7 @@ def run_case(case):
                 fd.write(sandbox.content("nz", seed, size))
             if name not in files:
                 files.append(name)
+                origin[name] = (size, seed)
         for i, f in enumerate(case["initial"]):
             write(f["name"], f["size"], i)
         metas = []          # {"path", "target"}
@@ -154,7 +157,7 @@ def run_case(case):
         last_mut = None
         for i, step in enumerate(case["steps"]):
             op = step["op"]
-            if op in ("add", "delete", "resize", "rewrite"):
+            if op in ("add", "delete", "resize", "rewrite", "restore"):
                 if op == "add":
                     if step["name"] in files:
                         continue
@@ -179,6 +182,10 @@ def run_case(case):
                     elif op == "resize":
                         with open(p, "wb") as fd:
                             fd.write(sandbox.content("nz", 300 + i, step["size"]))
+                    elif op == "restore":
+                        # back to the content the file had when it was first written (e.g. a download that completes)
+                        with open(p, "wb") as fd:
+                            fd.write(sandbox.content("nz", origin[name][1], origin[name][0]))
                     else:
                         size = os.path.getsize(p)
                         with open(p, "wb") as fd:
